@@ -285,14 +285,16 @@ def _cases_lattice(tier, seed):
     _init_a(seed)
     idxs = _idx(_LATTICE_NAMES)
     seqs = [(i,) for i in idxs] + list(itertools.product(idxs, repeat=2))
-    if tier == "thorough":
-        seqs += list(itertools.product(idxs, repeat=3))
+    seqs3 = list(itertools.product(idxs, repeat=3)) if tier == "thorough" else []
     cases = []
-    for seq in seqs:
+    for seq in seqs + seqs3:
         for gi, (gname, gs, nat, flag) in enumerate(_A["GS"]):
-            if flag == "lattice":
-                for pi in ((0, 1) if tier == "thorough" else (0,)):
-                    cases.append((gi, pi, 0, tuple(seq)))
+            if flag != "lattice":
+                continue
+            if len(seq) == 3 and not getattr(gs, "_reorder_operations", False):
+                continue  # length 3 only where the operation-sorting preprocess runs
+            for pi in ((0, 1) if (tier == "thorough" and len(seq) < 3) else (0,)):
+                cases.append((gi, pi, 0, tuple(seq)))
     return cases
 
 
